@@ -6,10 +6,14 @@ sys.path.insert(0, os.path.join(vlib.VERIF, "harness", "py"))
 import activation_check as ac
 import activation_gen as ag
 import activation_files as af
+import activation_oracle as ao
 
 MLS = ("activation",)
 HARNESSES = (("activation_h", ["libdbus-daemon-internal.a"]),)
-THEOREMS = []
+THEOREMS = ["C19_ledger", "C19_one_fate", "C19_spawn_once", "C19_no_spawn_while_waiting", "C19_held_once_in_order",
+            "C19_failure_each_waiter_once", "C19_timeout_each_waiter_once", "C19_exit_zero_ignored",
+            "C19_failure_own_name_partial", "C19_failure_own_name_refuted", "C19_one_fate_refuted", "C19_unique_name_not_delivered",
+            "C19_helper", "C19_helper_name_in_directory", "C19_helper_wellknown", "C19_helper_refuted", "C19_helper_total"]
 LEVEL = "proof"
 
 FLAVOURS = ["plain"] * 6 + ["limit", "limit", "timed", "uniq"]
@@ -81,6 +85,10 @@ def check_daemon_health(rep, rec):
     return True
 
 
+def hist_text(case):
+    return ac.hist_line(case)
+
+
 def replay_of(case):
     label, maxp, services, timed, events = case
     return {"label": label, "maxp": maxp, "services": [list(s) for s in services], "timed": timed, "events": events,
@@ -101,6 +109,7 @@ def run_bus_part(ctx, rnd):
                 r2["flaky"] = True
             res[i] = r2
     stats = {"agree": 0, "differ": 0, "aborted": 0, "model-error": 0, "flaky": 0, "steps": 0}
+    known = load_known()
     classes, dist = set(), {}
     seen = set()
     for r in res:
@@ -124,12 +133,27 @@ def run_bus_part(ctx, rnd):
                               {"history": replay_of(r["case"])})
         elif r["status"] == "differ":
             diffs = [(i, e, m, t) for i, (e, m, t) in enumerate(zip(r["case"][4], r["model"], r["impl"])) if m != t]
-            rep.violation("model and dbus-daemon disagree on activation history %s at step %d (%s): model %s, daemon %s" % (
-                r["case"][0], diffs[0][0], diffs[0][1], diffs[0][2], diffs[0][3]),
-                {"history": replay_of(r["case"]), "model": r["model"], "daemon": r["impl"], "first_run": r.get("first_run"),
-                 "names": "Activation.step vs bus/activation.c (see spec oracle verdict in 'oracle')"}, found_input=True)
-        elif r["status"] == "aborted":
-            pass
+            verdicts = ao.run_oracle(r["case"][2], r["case"][4], r["impl_raw"])
+            kn, unknown = ao.classify(r["case"][2], verdicts)
+            rep.violation("model and dbus-daemon disagree on activation history %s at step %d (%s): model %s, daemon %s%s" % (
+                r["case"][0], diffs[0][0], diffs[0][1], diffs[0][2], diffs[0][3],
+                (" — the daemon's behaviour breaks the property: %s" % (unknown[:2],)) if unknown else " — the daemon's behaviour satisfies the trace oracle; the model is off"),
+                {"history": replay_of(r["case"]), "model": r["model"], "daemon": r["impl"], "first_run": r.get("first_run"), "oracle": verdicts,
+                 "names": "Activation.step vs bus/activation.c"}, found_input=bool(unknown))
+        if r["status"] == "agree":
+            # model = daemon; the property itself, judged on what the daemon did
+            verdicts = ao.run_oracle(r["case"][2], r["case"][4], r["impl_raw"])
+            kn, unknown = ao.classify(r["case"][2], verdicts)
+            for fid, vs in kn.items():
+                entry = [k for k in known if k["id"] == fid]
+                if entry:
+                    rep.known(entry[0], {"history": hist_text(r["case"]), "verdict": list(vs[0])})
+                else:
+                    unknown += vs
+            if unknown:
+                rep.violation("dbus-daemon (and the model) break the property on history %s: %s" % (r["case"][0], unknown[:3]),
+                              {"history": replay_of(r["case"]), "daemon": r["impl"], "oracle": unknown})
+            stats["oracle_checked"] = stats.get("oracle_checked", 0) + 1
     return res, stats, classes, dist, len(seen)
 
 
